@@ -562,7 +562,7 @@ class SummaryCollector(ModelVisitor):
     def on_feature(self, feature):
         if feature.status == Status.failed:
             self.failed_features.append(feature)
-        elif feature.status == Status.error:
+        elif feature.status.is_error():
             self.errored_features.append(feature)
 
         self.duration += feature.duration
@@ -578,7 +578,7 @@ class SummaryCollector(ModelVisitor):
     def on_scenario(self, scenario):
         if scenario.status == Status.failed:
             self.failed_scenarios.append(scenario)
-        elif scenario.status == Status.error:
+        elif scenario.status.is_error():
             self.errored_scenarios.append(scenario)
 
         self.summary_counts.scenarios.increment(scenario.status)
